@@ -1079,7 +1079,7 @@ fn cmd_run(args: &[String]) -> i32 {
             Some(k) => index - start < k,
             None => index % hash_every == 0,
         };
-        if want_hash {
+        if want_hash && v.is_none() {
             hashes.push((index, h));
         }
         if samples.len() < 2 && nontrivial && v.is_none() {
